@@ -149,6 +149,10 @@ FAULTS = [
     ("wire zq : 8; zq = «;»", "UnrecognizedToken"),
     ("wire zq : 8; zq = 1; «}»", "UnrecognizedToken"),
     ("wire zq : 8; zq = 1; «/*»never_closed", "UnterminatedComment"),
+    ("wire zq : 8; zq = 1; «ZQ» = 1;", "UndeclaredWireAssigned"),                       # with a "did you mean" hint
+    ("wire zq : 8; zq = 1; wire zr : 8; zr = «Zq» + 1;", "UndeclaredWireRead"),
+    ("wire zq : 8; zq = [ pc == 0 : «0b11»; pc == 1 : 5; 1 : «0b111»; ];", "MismatchedMuxWidths"),   # an unsized arm in between
+    ("«x_zr» = 1;", "UndeclaredWireAssigned"),                                           # "missing register declaration?" hint
     # spans of compound expressions with parentheses at their edges: a binary expression spans the
     # tokens of its own production (its operands' parentheses included), a parenthesised
     # expression passes the span of what is inside
